@@ -156,7 +156,7 @@ RULE_DISP = ("sessions of public-API operations (register_*_hook on classes/NewT
 
 REGISTRY = {
     "C01": {"props_file": "Props/C01.v", "files": CORE_CONV + ["Model/TdTemplates.v", "Proofs/TdProofs.v", "Proofs/TdRoundtrip.v", "Model/Disambig.v", "Model/UnionStruct.v", "Gen/UStructSrc.v", "Gen/DisSrc.v",
-                                                             "Proofs/DisambigProofs.v", "Proofs/UnionStructProofs.v", "Proofs/SrcObligationsUnion.v", "Proofs/UnstructProofs.v", "Proofs/ClassRoundtrip.v", "Proofs/ConvRoundtrip.v", "Proofs/ConvCfg.v", "Props/C01.v"],
+                                                             "Proofs/DisambigProofs.v", "Proofs/UnionStructProofs.v", "Proofs/SrcObligationsUnion.v", "Proofs/UnstructProofs.v", "Proofs/ClassRoundtrip.v", "Proofs/ConvRoundtrip.v", "Proofs/ConvMono.v", "Proofs/ConvUnAgree.v", "Proofs/BaseRoundtrip.v", "Proofs/ConvCfg.v", "Props/C01.v"],
             "run": _conv("C01", 40), "rule": RULE_CONV, "t1_sections": T1_CONV + ["disambig", "unionstruct"]},
     "C03": {"props_file": "Props/C03.v", "files": CORE_CONV + ["Model/ConvEnc.v", "Proofs/UnstructProofs.v", "Proofs/ClassRoundtrip.v", "Proofs/ConvSound.v", "Proofs/ConvPrim.v", "Proofs/ConvRoundtrip.v", "Proofs/ConvEncProofs.v", "Proofs/ConvCfg.v", "Props/C03.v"],
             "run": _conv("C03", 40), "rule": RULE_CONV, "t1_sections": T1_CONV},
